@@ -311,7 +311,7 @@ class ArrExec:
         elif kind in ("max", "min"):
             j = z3.FreshInt("j"); i = z3.FreshInt("i")
             s.obls.append((f"safety/{site}:row is not empty", list(s.hyps), C >= 1 if not isinstance(C, int) else z3.BoolVal(C >= 1)))
-            s.obls.append((f"safety/{site}:elements are not infinite", list(s.hyps) + [0 <= i, i < R, 0 <= j, j < C], el(i, j).inf == 0))
+            s.obls.append((f"safety/{site}:elements are not infinite", list(s.hyps) + [0 <= i, i < R, 0 <= j, j < C], el(i, j).inf == 0, {"i": i, "j": j}))
             better = (lambda v, acc: v > acc) if kind == "max" else (lambda v, acc: v < acc)
             F = Rec(kind, REAL, lambda i: el(i, 0).v, lambda i, n, acc: z3.If(better(el(i, n).v, acc), el(i, n).v, acc), start=1)
             AN = Rec("anynan", BOOL, lambda i: z3.BoolVal(False), lambda i, n, acc: z3.Or(acc, el(i, n).nan))
